@@ -782,7 +782,9 @@ def real_pytest(files: Dict[str, str], args: List[str], env: Optional[Dict[str, 
         e = {k: v for k, v in os.environ.items() if k not in ("CI", "GITHUB_ACTIONS", "INLINE_SNAPSHOT_DEFAULT_FLAGS", "PYTEST_CURRENT_TEST", "PYTHONHASHSEED")}
         e["TERM"] = "unknown"
         e["COLUMNS"] = "100"
-        e["PYTHONPATH"] = "/repo/src"
+        from vlib.common import REPO_SRC
+
+        e["PYTHONPATH"] = REPO_SRC
         if env:
             e.update(env)
         p = subprocess.run([sys.executable, "-m", "pytest", "-p", "no:cacheprovider", "-q", *args], cwd=d, env=e, input=stdin, capture_output=True, timeout=timeout)
